@@ -135,6 +135,49 @@ SpanLinesAfter(d) ==
        \cup { [t |-> "C", c |-> d[OpenerOf(d, Len(d) + 1)].o, b |-> b] : b \in BOOLEAN }
   ELSE IF Len(d) - CloserAt(d) < MaxLines THEN SpanFollow ELSE {}
 
+(* ---------------- white space around the tokens (universe "W"; round 9) ---------------- *)
+\* Every document of <= MaxLines lines over WBase, spelled after every SCHEME of WsSchemes.  A scheme says, per line
+\* type, which white space stands around the tokens (ParserRefDoc: ws.a / ws.b / ws.e); each entry is a sequence of
+\* alternatives that is cycled through by the line number, so that one document mixes spellings (the first heading
+\* spelled the usual way, the second with a TAB after its end token, ...).  The scheme number is fixed by the first
+\* line (field k).  The relations demanded are those of the document without the spelling.
+None1 == << <<>> >>
+One(x) == << <<x>> >>
+Canon == [ha |-> One("SP"), hb |-> One("SP"), he |-> None1, la |-> One("SP"), le |-> None1, re |-> None1, pe |-> None1]
+WsSchemes == <<
+  \* after the end token of a heading: nothing / TAB / blank+TAB, by line
+  [Canon EXCEPT !.he = << <<>>, <<"TAB">>, <<"SP", "TAB">> >>],
+  [Canon EXCEPT !.he = << <<"TAB">>, <<"SP">>, <<"TAB", "SP">> >>],
+  [Canon EXCEPT !.he = << <<"SP", "SP">>, <<"TAB", "TAB">>, <<"SP">> >>],
+  \* CRLF text
+  [Canon EXCEPT !.he = One("CR")],
+  [Canon EXCEPT !.he = << <<>>, <<"SP", "CR">>, <<"CR">> >>],
+  \* between the '=' runs and the title
+  [Canon EXCEPT !.ha = None1, !.hb = None1, !.he = << <<"TAB">>, <<>> >>],
+  [Canon EXCEPT !.ha = One("TAB"), !.hb = One("TAB")],
+  [Canon EXCEPT !.ha = << <<"SP", "SP">>, <<>>, <<"TAB">> >>, !.hb = << <<>>, <<"SP", "TAB">>, <<"SP">> >>, !.he = << <<"SP">>, <<>> >>],
+  \* after a list marker, at the end of list / paragraph lines, after '----'
+  [Canon EXCEPT !.la = << <<>>, <<"TAB">>, <<"SP", "SP">> >>, !.le = << <<"SP">>, <<>>, <<"TAB">> >>, !.re = << <<"SP">>, <<"TAB">> >>,
+                !.pe = << <<"TAB">>, <<"SP">> >>],
+  [Canon EXCEPT !.la = << <<"TAB">>, <<>> >>, !.le = One("TAB"), !.re = << <<"SP", "TAB">> >>, !.pe = One("SP"),
+                !.he = << <<"TAB">>, <<"CR">> >>, !.ha = None1],
+  \* white space of Python's \s only (beyond the statement)
+  [Canon EXCEPT !.he = << <<>>, <<"FF">> >>],
+  [Canon EXCEPT !.he = << <<"VT">>, <<>> >>],
+  [Canon EXCEPT !.he = << <<>>, <<"NBSP">>, <<"IDSP">> >>],
+  [Canon EXCEPT !.ha = One("NBSP"), !.hb = One("IDSP")]
+>>
+Cyc(alts, i) == alts[((i - 1) % Len(alts)) + 1]
+WBase == { H(2), H(3), H(4), L(<<"*">>), L(<<"*", "*">>), L(<<"#">>), R, P }
+WsOf(base, sch, i) ==
+  CASE base.t = "H" -> [a |-> Cyc(sch.ha, i), b |-> Cyc(sch.hb, i), e |-> Cyc(sch.he, i)]
+    [] base.t = "L" -> [a |-> Cyc(sch.la, i), b |-> <<>>, e |-> Cyc(sch.le, i)]
+    [] base.t = "R" -> [a |-> <<>>, b |-> <<>>, e |-> Cyc(sch.re, i)]
+    [] base.t = "P" -> [a |-> <<>>, b |-> <<>>, e |-> Cyc(sch.pe, i)]
+WLinesAfter(d) ==
+  { b @@ [ws |-> WsOf(b, WsSchemes[k], Len(d) + 1), k |-> k] :
+      b \in WBase, k \in (IF d = <<>> THEN 1..Len(WsSchemes) ELSE { d[1].k }) }
+
 VARIABLES doc, pst
 vars == <<doc, pst>>
 Init == doc = <<>> /\ pst = InitS({})
@@ -146,7 +189,8 @@ AddSLine(l) == /\ IsSLine(l) => \A j \in 1..Len(doc) : ~IsSLine(doc[j])
                /\ AddLine(l)
 AddSpanLine(l) == /\ doc' = Append(doc, l)
                   /\ pst' = FeedS(pst, Tokens(l, Len(doc) + 1), 1)
-Next == IF IsSUniverse THEN \E l \in SLinesAt(Len(doc) + 1) : AddSLine(l)
+Next == IF Universe = "W" THEN \E l \in WLinesAfter(doc) : AddLine(l)
+        ELSE IF IsSUniverse THEN \E l \in SLinesAt(Len(doc) + 1) : AddSLine(l)
         ELSE IF IsSpanUniverse THEN \E l \in SpanLinesAfter(doc) : AddSpanLine(l)
         ELSE \E l \in Lines : AddLine(l)
 Spec == Init /\ [][Next]_vars
@@ -163,6 +207,8 @@ Case ==
   \E ref \in { IF HasO THEN mrel ELSE RefRelations(Plain(doc)) } :
   \E treeA \in { IF AsIsRelevant THEN MachineTree(doc, AllDevs) ELSE tree } :
     LET base == IF IsSUniverse THEN [doc |-> Plain(doc), rel |-> ref, sdoc |-> doc]
+                \* (round 9) spelling variants: wsx = a white-space character outside the strict set occurs (DRIFT only)
+                ELSE IF Universe = "W" THEN [doc |-> Plain(doc), rel |-> ref, wsp |-> TRUE, wsx |-> WsExoticDoc(doc)]
                 ELSE IF HasO THEN [doc |-> Plain(doc), rel |-> ref, tree |-> tree, ext |-> TRUE]
                 ELSE [doc |-> Plain(doc), rel |-> ref, tree |-> tree] IN
     /\ PrintT(<<"CASE", ToJson(IF treeA # tree
@@ -170,6 +216,7 @@ Case ==
                                  ELSE base)>>)
     /\ ~pst.stuck
     /\ mrel = ref
+    /\ WsOK(doc)
 \* documents with a construct that spans lines: the expectation printed is the machine's (rel), the statement
 \* accepts both readings of the construct (acc: it ends / it continues the list item it was opened in);
 \* M: the machine realises one of them
